@@ -44,6 +44,7 @@ type Result struct {
 	Rows    []int      `json:"rows,omitempty"`
 	Unknown []string   `json:"unknown,omitempty"`
 	BodyOK  string     `json:"body,omitempty"` // first bytes of the body (for samples)
+	rogue   bool
 }
 
 var specByKey = func() map[string]RouteSpec {
@@ -126,7 +127,7 @@ func runCase(h *rh.Harness, c Case) Result {
 	}
 	out := h.Do(req)
 	rh.CensusBound, rh.ResponseBound = old, oldR
-	res := Result{ID: c.ID, Out: out, Keys: sc.Keys, Rows: sc.Rows, Unknown: sc.Unknown}
+	res := Result{ID: c.ID, Out: out, Keys: sc.Keys, Rows: sc.Rows, Unknown: sc.Unknown, rogue: disobedient(c.Fault.Shape)}
 	if len(out.Body) > 0 {
 		b := out.Body
 		if len(b) > 160 {
@@ -136,6 +137,14 @@ func runCase(h *rh.Harness, c Case) Result {
 	}
 	classify(&res)
 	return res
+}
+
+func disobedient(shape string) bool {
+	switch shape {
+	case "rogue_before", "rogue_after", "rogue_far", "3batches_rogue", "unordered", "dups":
+		return true
+	}
+	return false
 }
 
 func classify(res *Result) {
@@ -162,6 +171,10 @@ func classify(res *Result) {
 			}
 		}
 		res.Class = "leak:" + strings.Join(s, "+")
+		if res.rogue {
+			// the database ignored the window / order the statement asked for: its own explanation
+			res.Class = "leak_on_disobedient_rows:" + strings.Join(s, "+")
+		}
 		res.What = fmt.Sprintf("%d goroutine(s) started for the request still alive after the response: %s", len(res.Out.Leaked), strings.Join(res.Out.Leaked, ", "))
 	}
 }
